@@ -301,7 +301,9 @@ def explore_c14(rng, tier, res, deep=False):
                 if rng.random() < 0.06:
                     # long queries, valid and failing late (in the lexer, the parser, the type checker): whatever compile()
                     # adjusts for the duration of a big parse has to be put back on every exit path
-                    q = "$" + ".a" * rng.choice([300, 600, 1500]) + rng.choice(["", "[?nope(@.b) > 1]", "[?count(@.b)]", "[?@.b ==]", "[", " ", "[?length(@.b) == 01]"])
+                    # (the valid one stays short enough for the interpreter's stack when it is applied: one generator per segment)
+                    suffix = rng.choice(["", "[?nope(@.b) > 1]", "[?count(@.b)]", "[?@.b ==]", "[", " ", "[?length(@.b) == 01]"])
+                    q = "$" + ".a" * (300 if suffix == "" else rng.choice([300, 600, 1500])) + suffix
                 elif rng.random() < 0.35:
                     q = rng.choice(["$[?@.v == $[2].v]", "$[?@ == $[0]]", "$[?$[1]]", "$..[?@ == $.b]", "$[?@.a == $[0].a]",
                                     "$[?count($[*]) > 2]", "$.a[?@ < $.b]", "$[?$[?@.v == 2]]", "$[?@ != $[-1]]"])
